@@ -87,6 +87,9 @@ def shards(plan, extra=()):
             out.append({'layer': 'order'})
         elif e == 'samples':
             out.append({'layer': 'samples'})
+        elif e == 'sibs':
+            for i in range(4):
+                out.append({'layer': 'sibs', 'i': i, 'k': 4})
         elif e in ('nest', 'nest10'):
             # nest10: depths <= 10 only (for checks whose own observations - or the library's .text - grow fast with depth)
             for i in range(8):
@@ -121,6 +124,10 @@ def iter_docs(shard):
                 yield d
     elif layer == 'order':
         yield from order_docs()
+    elif layer == 'sibs':
+        for j, d in enumerate(sibs_docs()):
+            if j % shard.get('k', 1) == shard.get('i', 0):
+                yield d
     elif layer == 'nest':
         for j, d in enumerate(nest_docs(shard.get('maxdepth', 40))):
             if j % shard.get('k', 1) == shard.get('i', 0):
@@ -297,6 +304,35 @@ def args_docs():
                               (('E', N.e, args, (('T', N.a),)),),
                               (('T', N.a), ('C', N.x, args, ()), ('T', N.o))):
                     yield gram.render(items), items
+
+
+# ---------------------------------------------------------------------------------------------
+# sibling layer: one level, many siblings (thresholds in the count / "only the k-th occurrence")
+
+def sibs_docs():
+    """4, 5, 6 and 8 siblings of two alternating kinds {command with argument, environment, group, inline math},
+    separated by a one-character text; same-kind runs of commands, environments and groups also unseparated"""
+    a = alpha('full')
+    N = a.N
+    unit = {
+        'c': ('C', N.x, (('G{', (('T', N.a),)),), ()),
+        'e': ('E', N.e, (), (('T', N.a),)),
+        'g': ('G{', (('T', N.a),)),
+        'm': ('M', '$', (('T', N.a),)),
+    }
+    for count in (4, 5, 6, 8):
+        for ka in 'cegm':
+            for kb in 'cegm':
+                items = []
+                for j in range(count):
+                    items.append(unit[ka if j % 2 == 0 else kb])
+                    if j < count - 1:
+                        items.append(('T', N.o))
+                items = tuple(items)
+                yield gram.render(items), items
+        for k in 'ceg':
+            items = tuple(unit[k] for _ in range(count))
+            yield gram.render(items), items
 
 
 # ---------------------------------------------------------------------------------------------
